@@ -28,7 +28,16 @@ Prog(s)      == s.prog                 \* the program is part of the machine sta
 NL(s)        == Len(Prog(s).lines)
 \* line index 0 denotes the DIRECT line s.dl (a statement sequence typed at the prompt); position <<0, i>> is its i-th statement
 Stmts(s, li) == IF li = 0 THEN s.dl ELSE Prog(s).lines[li].s
-IsIntVar(s, v) == \E i \in 1..Len(Prog(s).ints) : Prog(s).ints[i] = v
+(* DEFINT / DEFSNG (C20, C23).  A name written without a type sign denotes the variable of the type its first letter has
+   at the moment the name is USED.  The program lists such names in the optional field `bare`:
+   [n |-> "X", i |-> "X%", f |-> "X!"] says that bare X is the integer variable X% while X is DEFINT (s.dti holds the bare
+   names currently typed integer) and the single-precision variable X! otherwise.  Both variables are in `vars` (the bare
+   name is not); values never move between them.                                                                       *)
+Bare(s)     == IF "bare" \in DOMAIN Prog(s) THEN Prog(s).bare ELSE <<>>
+IsBare(s, v) == \E i \in 1..Len(Bare(s)) : Bare(s)[i].n = v
+Twin(s, v)  == Bare(s)[CHOOSE i \in 1..Len(Bare(s)) : Bare(s)[i].n = v]
+Res(s, v)   == IF IsBare(s, v) THEN (IF v \in s.dti THEN Twin(s, v).i ELSE Twin(s, v).f) ELSE v
+IsIntVar(s, v) == \E i \in 1..Len(Prog(s).ints) : Prog(s).ints[i] = Res(s, v)
 Norm(s, p)   == IF p[1] >= 1 /\ p[1] <= NL(s) /\ p[2] > Len(Stmts(s, p[1])) THEN <<p[1] + 1, 1>> ELSE p
 After(s, p)  == Norm(s, <<p[1], p[2] + 1>>)
 NextLine(p)  == IF p[1] = 0 THEN <<0, 100000>> ELSE <<p[1] + 1, 1>>       \* rest of the direct line is skipped
@@ -100,9 +109,10 @@ Start(p) ==
      parsing |-> {},        \* names of the user functions whose body is being evaluated (recursion guard)
      out |-> <<>>, stat |-> [k |-> "run", code |-> 0, line |-> 0],
      havoc |-> {}, frag |-> FALSE,
+     dti |-> {},            \* bare names (see Bare) that a DEFINT in force types as integer
      kf |-> FALSE]          \* TRUE: this behaviour is only explained by a listed known deviation (see DoClear)
 
-VarIdx(s, v) == CHOOSE i \in 1..Len(Prog(s).vars) : Prog(s).vars[i] = v
+VarIdx(s, v) == CHOOSE i \in 1..Len(Prog(s).vars) : Prog(s).vars[i] = Res(s, v)
 Get(s, v) == s.vars[VarIdx(s, v)]
 
 (* ---------------- errors ---------------- *)
@@ -157,15 +167,16 @@ EvalFn(s, e) ==
     ELSE LET r == EvalArgs(s, d.ps, e.args, 1) IN
          IF ~r.ok THEN Er(r.code)
          ELSE IF e.f \in s.parsing THEN Er(7)                  \* a function that calls itself: Out of memory
+         \* (the parameters denote the variables their names have when the function is CALLED, not when it was defined)
          ELSE LET bound == [i \in 1..Len(s.vars) |->
-                               LET c == {j \in 1..Len(d.ps) : d.ps[j] = Prog(s).vars[i]} IN
+                               LET c == {j \in 1..Len(d.ps) : Res(s, d.ps[j]) = Prog(s).vars[i]} IN
                                IF c = {} THEN s.vars[i] ELSE r.vs[CHOOSE j \in c : \A k \in c : k <= j]]
-                  b == Eval([s EXCEPT !.vars = bound, !.parsing = @ \cup {e.f}, !.havoc = @ \ {d.ps[j] : j \in 1..Len(d.ps)}], d.e)
+                  b == Eval([s EXCEPT !.vars = bound, !.parsing = @ \cup {e.f}, !.havoc = @ \ {Res(s, d.ps[j]) : j \in 1..Len(d.ps)}], d.e)
               IN IF ~b.ok THEN b
                  ELSE IF IsIntVar(s, e.f) /\ ~InInt16(b.v) THEN Er(6) ELSE Ok(b.v)
 Eval(s, e) ==
     CASE e.k = "c"   -> Ok(e.v)
-      [] e.k = "v"   -> IF e.n \in s.havoc THEN Er(-1) ELSE Ok(Get(s, e.n))
+      [] e.k = "v"   -> IF Res(s, e.n) \in s.havoc THEN Er(-1) ELSE Ok(Get(s, e.n))
       [] e.k = "err" -> Ok(s.err)
       [] e.k = "erl" -> Ok(s.erl)
       [] e.k = "fn"  -> EvalFn(s, e)
@@ -201,7 +212,7 @@ Eval(s, e) ==
 Fail(s, r) == IF r.code = -1 THEN Frag(s) ELSE Raise(s, r.code)
 \* conversion to the type of variable v (integers only: a range check)
 Conv(s, v, x) == IF IsIntVar(s, v) /\ ~InInt16(x) THEN Er(6) ELSE Ok(x)
-SetVar(s, v, x) == [s EXCEPT !.vars[VarIdx(s, v)] = x, !.havoc = @ \ {v}]
+SetVar(s, v, x) == [s EXCEPT !.vars[VarIdx(s, v)] = x, !.havoc = @ \ {Res(s, v)}]
 Adv(s) == [s EXCEPT !.pc = After(s, s.cur)]
 \* jump to line n (Undefined line number otherwise)
 Jump(s, n) == IF LineIdx(s, n) = 0 THEN Raise(s, 8) ELSE [s EXCEPT !.pc = <<LineIdx(s, n), 1>>]
@@ -371,7 +382,7 @@ Dispatched(s) == {DispatchSeq(s, o) : o \in Orders(Dispatchable(s))}
 \* continues with the next statement.  (keepGosub = TRUE gives the behaviour of the pinned code, which keeps the
 \* GOSUB stack: a listed known finding; traces only explained that way are reported as such, never silently accepted.)
 Cleared(s, keepGosub) ==
-    [s EXCEPT !.vars = [i \in 1..Len(s.vars) |-> 0], !.havoc = {}, !.fns = <<>>,
+    [s EXCEPT !.vars = [i \in 1..Len(s.vars) |-> 0], !.havoc = {}, !.fns = <<>>, !.dti = {},
               !.fors = <<>>, !.whiles = <<>>, !.gosubs = IF keepGosub THEN @ ELSE <<>>,
               !.onerr = 0, !.inh = FALSE, !.resume = None, !.err = 0, !.erl = 0,
               !.traps = NoTraps, !.susp = FALSE, !.dp = 1,
@@ -403,8 +414,9 @@ Exec(s0) ==
     CASE st.op = "LET"    -> LET r == Eval(s, st.e) IN IF ~r.ok THEN Fail(s, r)
                              ELSE IF ~Conv(s, st.v, r.v).ok THEN Raise(s, 6) ELSE Adv(SetVar(s, st.v, r.v))
       [] st.op = "PRINT"  -> LET r == Eval(s, st.e) IN IF ~r.ok THEN Fail(s, r) ELSE Adv([s EXCEPT !.out = <<r.v>>])
-      [] st.op = "FOR"    -> DoFor(s, st)
-      [] st.op = "NEXT"   -> NextFrom(s, st, 1)
+      \* (loop counters and READ targets whose type depends on DEFINT are outside the fragment)
+      [] st.op = "FOR"    -> IF IsBare(s, st.v) THEN Frag(s) ELSE DoFor(s, st)
+      [] st.op = "NEXT"   -> IF \E j \in 1..Len(st.vs) : IsBare(s, st.vs[j]) THEN Frag(s) ELSE NextFrom(s, st, 1)
       [] st.op = "WHILE"  -> DoWhile(s, st)
       [] st.op = "WEND"   -> DoWend(s)
       [] st.op = "GOTO"   -> Jump(s, st.n)
@@ -418,13 +430,15 @@ Exec(s0) ==
       [] st.op = "ONERR"  -> DoOnErr(s, st)
       [] st.op = "RESUME" -> DoResume(s, st)
       [] st.op = "ERROR"  -> DoError(s, st)
-      [] st.op = "READ"   -> ReadFrom(s, st, 1)
+      [] st.op = "READ"   -> IF \E j \in 1..Len(st.vs) : IsBare(s, st.vs[j]) THEN Frag(s) ELSE ReadFrom(s, st, 1)
       [] st.op = "DATA"   -> Adv(s)
       [] st.op = "RESTORE" -> DoRestore(s, st)
       [] st.op = "TRAP"   -> DoTrapCmd(s, st)
       [] st.op = "ONTRAP" -> DoOnTrap(s, st)
       [] st.op = "RUN"    -> DoRun(s, st)
       [] st.op = "DEFFN"  -> Adv([s EXCEPT !.fns = Append(@, [f |-> st.f, ps |-> st.ps, e |-> st.e])])
+      [] st.op = "DEFTYPE" -> Adv([s EXCEPT !.dti = IF st.t = "%" THEN @ \cup {st.ns[j] : j \in 1..Len(st.ns)}
+                                                            ELSE @ \ {st.ns[j] : j \in 1..Len(st.ns)}])
       [] st.op = "REM"    -> [s EXCEPT !.pc = NextLine(s.cur)]
 
 \* a statement boundary: dispatch pending traps (any order), then execute one statement
